@@ -7,8 +7,9 @@ Oracle handlers for C13.
   update steps and asked the query steps; `long` / `fresh` are the `|`-separated answers of the
   long-lived client and of a client freshly built (cache-less) from the latest descriptor.
   steps: `U!kind!desc`, `Q!S!ident!size`, `Q!L!ident!size!period!now`, `Q!G!key`, `Q!C`, `Q!A`,
-  `Q!I!id`, `Q!X!…` (queries that are judged but not modelled: replication sets for other
-  operations / replication factors, token ranges, Get on the returned sub-ring).
+  `Q!I!id`, `Q!X!W!key` (Get, Write op), `Q!X!R` (GetReplicationSetForOperation(Read)),
+  `Q!X!T!id` (token ranges), `Q!X!Z` (Zones) — all modelled (`C13.readGet`, `readAll`, `readRanges`,
+  `readZones`, `getOnShard(LB)` for the Get on the returned sub-ring, 4th component of S / L answers).
   An answer may carry `#`-separated components; the model reproduces a prefix of them.
 * `C13.phist rfcache streams steps | long fresh` — the same for `PartitionRingWatcher`.
 * `C13.conc  round za n phases | mismatches` — concurrent readers (judge only, see `handleConc`).
@@ -54,7 +55,25 @@ structure St where
   out : List String := []   -- model answers (reversed)
   hits : Nat := 0           -- queries served from a shuffle-shard cache
 
-def step (st : Streams) (s : St) (stepStr : String) (implAns : String) : St :=
+/-- heartbeat timeout of the tie (100 years, seconds) and the clock value handed to the health checks:
+every instance is heartbeat-healthy whatever the real clock says. -/
+def hbTie : Int := 3153600000
+def nowTie : Int := 1700000000
+def allOp : C01.Op := C01.newOp C01.allStates none
+
+def showInstsOrd (l : List Inst) : String := if l.isEmpty then "-" else ";".intercalate (l.map showInst)
+def errName (e : C01.Err) : String := match e with | .emptyRing => "err:empty" | _ => "err"
+/-- `Get` answers: instances in selection order `^` MaxErrors (sub-ring), or with the two zone fields. -/
+def showGetSub (r : Except C01.Err C01.RSet) : String :=
+  match r with | .ok rs => s!"{showInstsOrd rs.instances}^{rs.maxErrors}" | .error e => errName e
+def showGetW (r : Except C01.Err C01.RSet) : String :=
+  match r with | .ok rs => s!"{showInstsOrd rs.instances}^{rs.maxErrors}^0^0" | .error e => errName e
+def showAll (r : Except C01.Err C02.RSetAll) : String :=
+  match r with
+  | .ok rs => s!"{showInstsOrd rs.instances}^{rs.maxErrors}^{rs.maxUnavailableZones}^{if rs.zoneAware then 1 else 0}"
+  | .error e => errName e
+
+def step (rf : Nat) (st : Streams) (s : St) (stepStr : String) (implAns : String) : St :=
   let put := fun (c : Client) (a : String) => ({ c := c, out := a :: s.out, hits := s.hits } : St)
   let putH := fun (h : Bool) (c : Client) (a : String) => ({ c := c, out := a :: s.out, hits := if h then s.hits + 1 else s.hits } : St)
   match stepStr.splitOn "!" with
@@ -66,7 +85,8 @@ def step (st : Streams) (s : St) (stepStr : String) (implAns : String) : St :=
     match size.toInt? with
     | some size =>
       let hit := (lookupAssoc (⟨ident, size⟩ : Key) s.c.cache).isSome
-      let (m, c') := queryShard s.c st ident size; putH hit c' (showSub m)
+      let g := showGetSub (getOnShard s.c st rf hbTie ident size (_key.toNat?.getD 0) allOp nowTie)
+      let (m, c') := queryShard s.c st ident size; putH hit c' (showSub m ++ "#" ++ g)
     | none => put s.c "parse-error"
   | ["Q", "L", ident, size, period, now, _key] =>
     match size.toInt?, period.toInt?, now.toInt? with
@@ -74,12 +94,23 @@ def step (st : Streams) (s : St) (stepStr : String) (implAns : String) : St :=
       let hit := match lookupAssoc (⟨ident, size, period⟩ : LKey) s.c.lbCache with
         | some e => !(now - period < e.after || now - period > e.before)
         | none => false
-      let (m, c') := queryShardLB s.c st ident size period now; putH hit c' (showSub m)
+      let g := showGetSub (getOnShardLB s.c st rf hbTie ident size period now (_key.toNat?.getD 0) allOp nowTie)
+      let (m, c') := queryShardLB s.c st ident size period now; putH hit c' (showSub m ++ "#" ++ g)
     | _, _, _ => put s.c "parse-error"
   | ["Q", "G", key] =>
     match key.toNat? with
-    | some key => put s.c (match get1 s.c key with | some i => showInst i | none => "err")
+    | some key =>
+      put s.c (match readGet (s.c.rcfg rf hbTie) s.c.idx s.c.desc key allOp nowTie rf with
+        | .ok rs => showInstsOrd rs.instances | .error _ => "err")
     | none => put s.c "parse-error"
+  | ["Q", "X", "W", key] =>
+    match key.toNat? with
+    | some key => put s.c (showGetW (readGet (s.c.rcfg rf hbTie) s.c.idx s.c.desc key C01.opWrite nowTie rf))
+    | none => put s.c "parse-error"
+  | ["Q", "X", "R"] => put s.c (showAll (readAll (s.c.rcfg rf hbTie) s.c.idx s.c.desc C01.opRead nowTie))
+  | ["Q", "X", "T", id] =>
+    put s.c (match readRanges (s.c.rcfg rf hbTie) s.c.idx s.c.desc (str? id) with | .ok l => showNatList l | .error _ => "err")
+  | ["Q", "X", "Z"] => put s.c (",".intercalate (readZones s.c.idx) ++ "/" ++ toString rf)
   | ["Q", "C"] => put s.c (showCounts (counts s.c zoneNames))
   | ["Q", "A"] => put s.c (showDesc s.c.desc)
   | ["Q", "I", id] => put s.c (match s.c.desc.get? (str? id) with | some i => showInst i | none => "err")
@@ -87,8 +118,8 @@ def step (st : Streams) (s : St) (stepStr : String) (implAns : String) : St :=
 
 def modelled (stepStr : String) : Nat :=
   match stepStr.splitOn "!" with
-  | "Q" :: "S" :: _ => 3
-  | "Q" :: "L" :: _ => 3
+  | "Q" :: "S" :: _ => 4
+  | "Q" :: "L" :: _ => 4
   | _ => 1000
 
 /-- erase the `versions` field of every instance encoding inside an answer. -/
@@ -107,7 +138,7 @@ def kindOf (stepStr : String) : String :=
 
 def handleHist (f : List String) : String × String × String :=
   match f with
-  | [za, _rf, streams, steps, long, fresh] =>
+  | [za, rfS, streams, steps, long, fresh] =>
     match parseStreams streams with
     | some st =>
       let starts := startsFn st
@@ -116,7 +147,8 @@ def handleHist (f : List String) : String × String × String :=
       let freshL := fresh.splitOn "|"
       if stepsL.length != longL.length || stepsL.length != freshL.length then ("bad-lengths", "-", "-") else
       let init : St := { c := { cfg := ⟨za == "1"⟩ } }
-      let fin := (stepsL.zip longL).foldl (fun s (sp, a) => step starts s sp a) init
+      let rf := rfS.toNat?.getD 1
+      let fin := (stepsL.zip longL).foldl (fun s (sp, a) => step rf starts s sp a) init
       let model := fin.out.reverse
       let diffs := ((stepsL.zip (model.zip longL)).zipIdx.filterMap fun ((sp, m, a), i) =>
         let n := modelled sp
